@@ -6,7 +6,7 @@ wt, prop, confirm_log = sys.argv[1], sys.argv[2], sys.argv[3]
 existing = [int(re.search(r'-m(\d+)$', d).group(1)) for d in glob.glob('/verif/seeded/%s-m*' % prop)]
 next_id = max(existing + [0]) + 1
 lines = [l.strip() for l in open(confirm_log) if l.startswith(wt + ' ')]
-for m in ('m1', 'm2'):
+for m in ("m1", "m2"):
     line = [l for l in lines if l.startswith('%s %s:' % (wt, m))]
     if not line:
         print('no confirmation line for', wt, m); continue
